@@ -285,6 +285,9 @@ def store(
 
     arrays = []
     for s, t, r in zip(sources, targets, regions_list):
+        # The per-block target slices below are literals of the advertised
+        # layout; pin it so optimization cannot hand the kernel other blocks.
+        s = s.freeze_chunks()
         slices = ArraySliceDep(s.chunks)
         arrays.append(
             map_blocks(
